@@ -6,7 +6,7 @@
      src/coap_oscore.c            coap_oscore_new_pdu_encrypted_lkd: Partial IV = seq,
                                   oscore_increment_sender_seq, then
                                   if (seq > next_seq) { next_seq += ssn_freq; save(next_seq); }
-     src/oscore/oscore.c          oscore_increment_sender_seq (seq++, fails at OSCORE_SEQ_MAX)
+     src/oscore/oscore.c          oscore_increment_sender_seq (seq++, fails above OSCORE_SEQ_MAX)
 
    Definitions only.  All global names carry the prefix ss_. *)
 From Coq Require Import ZArith List Bool.
@@ -29,8 +29,10 @@ Definition ss_init (freq start : Z) : ss_state :=
 Definition ss_protect (s : ss_state) : option Z * option Z * ss_state :=
   let piv := ss_seq s in
   let seq' := (ss_seq s + 1) mod ss_two64 in
-  if seq' >=? ss_seq_max then
-    (* oscore_increment_sender_seq returns 0: goto error, nothing is sent *)
+  if seq' >? ss_seq_max then
+    (* oscore_increment_sender_seq returns 0: goto error, nothing is sent.  (The Partial IV
+       just used must be below OSCORE_SEQ_MAX, the bound of the recipient's check; since
+       /repo 3381ec1 the last valid one, 2^40-2, is no longer refused.) *)
     (None, None, Build_ss_state seq' (ss_next s) (ss_freq s))
   else if seq' >? ss_next s then
     let n := (ss_next s + ss_freq s) mod ss_two64 in
